@@ -4,6 +4,7 @@ import SciVerif.Lemmas.C17w
 import SciVerif.Lemmas.C17x
 import SciVerif.Lemmas.C17q
 import SciVerif.Lemmas.C17i
+import SciVerif.Lemmas.C17j
 import SciVerif.Generated.C17Units
 
 /-!
@@ -571,6 +572,54 @@ example : let env : Env := { Env.empty with
         [⟨[['a']], .float, [], some ['m'], some (.num 3), false, none, none, [], [], none⟩] := rfl
     simp [sStep, sLookup, absEnv, env, select, hf, sReroot, sImportAll, sImportOne, absN, blank, splitDot,
       Env.empty]
+
+/-- … and with the destination COMPUTED from the hierarchy stack and the written prefix
+    (`impDest`: the names left on the stack, then the prefix, joined and split at the dots — a group
+    line may itself carry a dotted name) two side conditions of an indented import line hold for
+    every stack, indent and prefix: `ImpPathOK` and the `WFDest` conjunct of `InFrag`. -/
+theorem C17_import_dest_computed (ps : List (Nat × Str)) (i : Nat) (pre : List Str) :
+    ImpPathOK ps i pre (impDest ps i pre) ∧ WFDest (impDest ps i pre) :=
+  impDest_ok ps i pre
+
+example : impDest [(2, ['b', '.', 'c']), (0, ['a'])] 4 [['h']] = [['a'], ['b'], ['c'], ['h']] ∧
+    impDest [(2, ['b']), (0, ['a'])] 2 [] = [['a']] ∧ impDest [] 0 [] = [] := by decide
+
+/-- The side conditions of the flat refinement theorem are an executable check: `fragRunB` (a
+    `Bool`-valued function of the unit table, the initial specification environment and the
+    program: it evaluates the decidable form `inFragB` of `InFrag` for each statement in the
+    environment the specification's own run reaches) accepts exactly the programs of the proved
+    fragment — sound and complete. -/
+theorem C17_fragment_decidable (tbl : UnitTable) (senv : SEnv) (stmts : List SStmt) :
+    (fragRunB tbl senv stmts = true ↔ FragRun tbl senv stmts) ∧
+    (∀ s, inFragB senv s = true ↔ InFrag senv s) :=
+  ⟨fragRunB_iff tbl senv stmts, fun s => ⟨inFragB_sound senv s, inFragB_complete senv s⟩⟩
+
+/-- Proved part with the side condition as a computation: for every program that the check
+    `fragRunB` accepts (no `Prop`-valued hypothesis about the program is left; by
+    `C17_fragment_decidable` these are exactly the programs of `C17_refinement_partial`), from every
+    environment satisfying the invariant: whenever the specification accepts the program, the
+    model's main loop accepts its lines and ends in the abstraction of the specification's result.
+    Still missing from `C17_refinement_statement`: the programs `fragRunB` refuses (declared nodes,
+    hosts by reference, sliced modifications, injections across types, integer nodes with units,
+    empty imports). -/
+theorem C17_refinement_checked_partial (tbl : UnitTable) (stmts : List SStmt) (items : List Item)
+    (env : Env) (s' : SEnv) (hinv : Inv tbl env) (hchk : fragRunB tbl (absEnv env) stmts = true)
+    (hc : stmts.mapM conc = some items) (h : sRun tbl (absEnv env) stmts = .ok s') :
+    ∃ env', items.foldlM (step tbl) env = .ok env' ∧ absEnv env' = s' ∧ Inv tbl env' :=
+  refine_run tbl stmts items env s' hinv (fragRunB_sound tbl (absEnv env) stmts hchk) hc h
+
+/-- the check accepts a non-trivial program (definition with unit, injected definition that adopts
+    the unit, modification by injection, import of everything below `g`) … and refuses one that
+    injects across types -/
+example : fragRunB unitTable (absEnv Env.empty)
+      [.defn [['a']] .float [] (.lit (.num 3)) (some ['m']),
+       .defn [['b']] .float [] (.inj none (.exact [['a']]) []) none,
+       .modl [['a']] (.inj none (.exact [['b']]) []) (some ['c', 'm']),
+       .imp [['g']] none .all] = true ∧
+    fragRunB unitTable (absEnv Env.empty)
+      [.defn [['a']] .float [] (.lit (.num 3)) (some ['m']),
+       .defn [['b']] .str [] (.inj none (.exact [['a']]) []) none] = false := by
+  decide +kernel
 
 /-- a property line in its documented place: "update the node at the path" (specification) and
     "update the last node" (code) are the same update -/
